@@ -33,10 +33,10 @@ func jobResumePlan(id string, maxTotal int) *Job {
 		total := 1 + it.Choice("totalMinus1", maxTotal)
 		cs := c.BV(4, 32)
 		size := it.In("size", "i64", 64)
-		it.assume(c.SLE(c.BV(0, 64), size))
-		it.assume(c.SLE(size, c.BV(uint64(4*maxTotal), 64)))
+		it.Assume(c.SLE(c.BV(0, 64), size))
+		it.Assume(c.SLE(size, c.BV(uint64(4*maxTotal), 64)))
 		ct := it.call(findPkgFunc(it.prog, tpkg, "chunkTotal"), []Value{size, cs}, nil).(*Term)
-		it.assume(c.Eq(ct, c.BV(uint64(total), 32)))
+		it.Assume(c.Eq(ct, c.BV(uint64(total), 32)))
 
 		stateT := it.namedType(tpkg, "sendFileState")
 		itemT := it.namedType("pkg/manifest", "FileItem")
@@ -47,7 +47,7 @@ func jobResumePlan(id string, maxTotal int) *Job {
 		nb := (total + 7) / 8
 		bm := it.InBytes("bitmap", nb)
 		if total%8 != 0 {
-			it.assume(c.Eq(c.Lshr(bm[nb-1], c.BV(uint64(total%8), 8)), c.BV(0, 8)))
+			it.Assume(c.Eq(c.Lshr(bm[nb-1], c.BV(uint64(total%8), 8)), c.BV(0, 8)))
 		}
 		V := it.In("lastVerifiedChunk", "u32", 32)
 		vhash := it.In("lastVerifiedHash", "u64", 64)
@@ -66,7 +66,7 @@ func jobResumePlan(id string, maxTotal int) *Job {
 
 		// captured variables
 		tail := it.In("resumeVerifyTail", "u32", 32)
-		it.assume(c.ULE(tail, c.BV(3, 32)))
+		it.Assume(c.ULE(tail, c.BV(3, 32)))
 		modes := []string{"last", "none", "all"}
 		mode := modes[it.Choice("resumeVerify", 3)]
 		algs := []uint64{1, 0}
